@@ -259,6 +259,14 @@ func runC11(c *Ctx) {
 		t := lb.Of(e.Results[0], e.Instr)
 		want := "call<math/bits.TrailingZeros>(un<^>(phi(0, bin<|>(cycle, bin<^>(load(iaddr(p0, " + idx + ")), load(iaddr(p1, " + idx + ")))))))"
 		_, ok := ana.Match(want, t)
+		if !ok || !loopOK {
+			// the same set of indices walked downwards: i = 243 … 243-n+1, element i-1 (OR is order-independent)
+			idxD := "ind<-1>(242)"
+			wantD := "call<math/bits.TrailingZeros>(un<^>(phi(0, bin<|>(cycle, bin<^>(load(iaddr(p0, " + idxD + ")), load(iaddr(p1, " + idxD + ")))))))"
+			if _, okD := ana.Match(wantD, t); okD && len(edgesMatching(lb, "bin<<>(bin<->(243, p2), ind<-1>(243))")) == 1 && len(ana.BackEdges(lane)) == 1 {
+				ok, loopOK = true, true
+			}
+		}
 		r.Check(ok && loopOK, "C11.lane-test.term", c.ipos(e.Instr), "lane test = TrailingZeros(^ OR_{i=243-n..242}(l[i]^h[i])): the range covers exactly the last n trits %s", ana.Explain(want, t))
 	}
 	// worker: panic guard, returned nonce, lane filling
